@@ -136,29 +136,46 @@ def run_term(part, kind, src, domains, strat, deep):
     if not isinstance(root, Expr):
         part.count("python_folded_roots")
     variables = list(s.variables)
+    # source-level oracle: the same text evaluated with plain Python values (never sees a cspuz tree)
+    table = []
+    for env in refsem.assignments(variables):
+        tup = tuple(env[v.id] for v in variables)
+        try:
+            table.append((tup, env, progs.ref_value(src, *tup)))
+        except TypeError:
+            part.count("skipped_ill_typed_source")
+            return
+    for tup, env, want in table:
+        got = refsem.ev(root, env)
+        if got != want or type(got) is not type(want):
+            part.violation(
+                "constructor-builds-wrong-tree:%s" % "+".join(sorted(tree_ops(root, set()) - {"VAR"}))[:60],
+                case,
+                {"assignment": list(tup), "tree_value": got, "source_value": want},
+            )
+            return
     if kind == "bool":
-        goals = [("pos", root), ("neg", BoolExpr(Op.NOT, [root]) if isinstance(root, Expr) else (not root))]
+        neg = BoolExpr(Op.NOT, [root]) if isinstance(root, Expr) else (not root)
+        goals = [("pos", root, [t for t, _, v in table if v is True]), ("neg", neg, [t for t, _, v in table if v is False])]
     else:
-        vals = sorted(set(refsem.ev(root, env) for env in refsem.assignments(variables)))
+        vals = sorted(set(v for _, _, v in table))
         targets = [vals[0], vals[-1], vals[-1] + 1] if len(vals) > 1 else [vals[0], vals[0] - 1]
         if deep and len(vals) > 2:
             mid = vals[1:-1]
             targets += mid if len(mid) <= 6 else [mid[0], mid[len(mid) // 2], mid[-1]]
-        goals = [("eq%d" % t, root == t) for t in targets]
+        goals = [("eq%d" % t, root == t, [tp for tp, _, v in table if v == t]) for t in targets]
         if deep:
-            goals.append(("lt", root < vals[-1]))
-    for gname, g in goals:
+            goals.append(("lt", root < vals[-1], [tp for tp, _, v in table if v < vals[-1]]))
+    for gname, g, sols in goals:
         s.constraints = []
         s.ensure(g)
         c = dict(case)
         c["goal"] = gname
-        check_program(part, variables, list(s.constraints), c, s, strat)
+        check_program(part, variables, list(s.constraints), c, s, strat, sols=sols)
     # denotation: the tree must agree with the reference on *every* assignment, whatever model z3 prefers
-    nassign = 1
-    for v in variables:
-        nassign *= len(refsem.domain(v))
+    nassign = len(table)
     if kind == "bool" and nassign <= 200:
-        pos = refsem.solutions(variables, [root])
+        pos = [t for t, _, v in table if v is True]
         s.constraints = []
         s.ensure(BoolExpr(Op.XOR, [root if isinstance(root, Expr) else bool(root), table_expr(variables, pos)]))
         c = dict(case)
@@ -185,7 +202,17 @@ def run_pair(part, src1, src2, strat):
         return
     s.ensure(r1)
     s.ensure([r2])
-    check_program(part, list(s.variables), list(s.constraints), case, s, strat)
+    variables = list(s.variables)
+    sols = []
+    for env in refsem.assignments(variables):
+        tup = tuple(env[v.id] for v in variables)
+        try:
+            if progs.ref_value(src1, *tup) is True and progs.ref_value(src2, *tup) is True:
+                sols.append(tup)
+        except TypeError:
+            part.count("skipped_ill_typed_source")
+            return
+    check_program(part, variables, list(s.constraints), case, s, strat, sols=sols)
 
 
 # ------------------------------------------------------------------ sessions
